@@ -424,6 +424,14 @@ func check(r *rep.Report, f forest, m *model, names []string, run []op, via, kin
 					what += " (a fact is reported more than once, or a fact of an unrelated location is seen)"
 				}
 				r.Violate(diamondKey(m, l), what, wit(rep.J{"location": l, "pattern": p, "ancestors": anc, "got": got, "want": want}))
+			} else if cf, isCore := f.(*coreForest); isCore {
+				// the same search issued by a script of the location (as its rules' actions do) sees the same facts
+				pj, _ := json.Marshal(p)
+				x, serr := cf.locs[l].RunJavascript(drv.Ctx(), "var fs = Env.Search("+string(pj)+").Found; var n = 0; for (var i = 0; i < fs.length; i++) { n += fs[i].Bindingss.length; }; n", nil, nil, nil)
+				r.Count("inherited_searches_issued_by_a_script", 1)
+				if serr != nil || fmt.Sprint(x) != fmt.Sprint(len(want)) {
+					r.Violate(diamondKey(m, l), "Env.Search in a script of the location does not see what the inherited search through the API sees", wit(rep.J{"location": l, "pattern": p, "ancestors": anc, "script_count": fmt.Sprint(x), "script_error": drv.ErrStr(serr), "want": want}))
+				}
 			}
 		}
 		wantRules := []string{}
